@@ -210,6 +210,14 @@ func runC14(c *Ctx) {
 		c.Funcs[g.F.Name] = true
 		ent, ok := goTable[key]
 		if !ok {
+			// a site the table does not know: its join class is inferred from its shape and then
+			// verified like a listed one (owner WaitGroup that Close waits on, or a WaitGroup local to the spawner)
+			ent, ok = inferGoEntry(c, g)
+			if ok {
+				c.Notes = append(c.Notes, "goroutine site not in the table, class inferred: "+key+" -> "+ent.Class+" "+ent.Field+ent.Join)
+			}
+		}
+		if !ok {
 			c.Check(K("go", key), g.Node.Pos(), false, "every goroutine is joined by its owner's Close, scoped to its spawner, or a reviewed transient", "new goroutine site without a verified join class")
 			continue
 		}
@@ -1248,4 +1256,50 @@ func addsWhenTrue(h *eng.Func, wgField string) (int64, bool) {
 		}
 	}
 	return k, nTrue >= 1
+}
+
+// inferGoEntry proposes a join class for a goroutine site the table does not list: an owner
+// WaitGroup field (spawned through field.Go, or behind a dominating field.Add) whose owner
+// has a Close method, or a WaitGroup local to the spawner.  The proposal is then verified by
+// the same obligations as a listed site; a site that fits neither shape stays a violation.
+func inferGoEntry(c *Ctx, g eng.GoSite) (goEntry, bool) {
+	info := g.F.Info()
+	cf := g.F.CFG()
+	fieldOf := func(e ast.Expr) string {
+		if sel, ok := eng.Unparen(e).(*ast.SelectorExpr); ok {
+			return eng.FieldName(info, sel)
+		}
+		return ""
+	}
+	ownerClose := func(fld string) (string, bool) {
+		i := strings.LastIndex(fld, ".")
+		if i < 0 {
+			return "", false
+		}
+		cl := "(*" + fld[:i] + ").Close"
+		return cl, c.P.Func(cl) != nil
+	}
+	if g.ViaWG != nil {
+		if fld := fieldOf(g.ViaWG); fld != "" {
+			if cl, ok := ownerClose(fld); ok {
+				return goEntry{Class: "WG", Field: fld, Close: cl, Reason: "inferred: spawned through the owner's WaitGroup"}, true
+			}
+			return goEntry{}, false
+		}
+		return goEntry{Class: "SCOPED", Join: "wg", Reason: "inferred: WaitGroup local to the spawner"}, true
+	}
+	for _, add := range g.F.Calls("(*sync.WaitGroup).Add") {
+		s, isSel := eng.Unparen(add.Fun).(*ast.SelectorExpr)
+		if !isSel || !cf.Dominates(cf.LocOf(add), cf.LocOf(g.Node)) {
+			continue
+		}
+		if fld := fieldOf(s.X); fld != "" {
+			if cl, ok := ownerClose(fld); ok {
+				return goEntry{Class: "WG", Field: fld, Close: cl, Reason: "inferred: registered with the owner's WaitGroup"}, true
+			}
+		} else if v, ok := eng.ObjOf(info, s.X).(*eng.Var); ok && !v.IsField() {
+			return goEntry{Class: "SCOPED", Join: "wg", Reason: "inferred: WaitGroup local to the spawner"}, true
+		}
+	}
+	return goEntry{}, false
 }
